@@ -21,7 +21,7 @@ ASSUMPTIONS = ["permutations respect what Python itself requires (an alias after
                "hash seeds are sampled (3-4 per program), not enumerated"]
 COMPONENTS = {"real": ["twosigma.memento (all)", "fresh CPython interpreters with real hash randomisation seeds", "import system", "filesystem store on tmpfs"],
               "stub": ["generated user program", "uuid4, clock"]}
-REACH = ["programs_with_two_packages", "programs", "programs_with_set_constants", "second_node_calls", "nodes"]
+REACH = ["programs_with_mutual_recursion", "programs_with_two_packages", "programs", "programs_with_set_constants", "second_node_calls", "nodes"]
 
 
 def cases(tier, seed):
@@ -83,10 +83,14 @@ def execute(case):
             rs = [o["programs"][str(idx)] for o in outs]
             for j, r in enumerate(rs):
                 if "error" in r:
+                    if r.get("error_lib"):
+                        raise core.LibraryRaised(r.get("error_type", "?"), "program %d on node %d: %s" % (idx, j, r["error"]))
                     raise core.HarnessError("program %d failed on node %d: %s" % (idx, j, r["error"]))
             p = pj["prog"]
             if any(p.get("pkg") or []):
                 stats["programs_with_two_packages"] = stats.get("programs_with_two_packages", 0) + 1
+            if any(c.get("back") for n in p["nodes"] for c in n["calls"]):
+                stats["programs_with_mutual_recursion"] = stats.get("programs_with_mutual_recursion", 0) + 1
             if any(n["setc"] is not None for n in p["nodes"]):
                 stats["programs_with_set_constants"] = stats.get("programs_with_set_constants", 0) + 1
             v0 = rs[0]["versions"]
